@@ -52,13 +52,24 @@ def main():
                 sh("git reset -q --hard && git clean -qfd", cwd=WT)
                 continue
             sh("git reset -q", cwd=WT)
-            rc, out = sh("go build ./... && go build -tags verif ./...", cwd=WT)
-            meta["builds"] = rc == 0
-            rc, out = sh("go test -vet=off -count=1 ./...", cwd=WT)
-            meta["suite_passes"] = rc == 0
-            if rc != 0:
-                meta["suite_output"] = out[-800:]
-            if os.path.exists(demo):
+            old_meta = os.path.join("/verif/seeded", tag, "meta.json")
+            check_only = os.environ.get("MUT_CHECK_ONLY") and os.path.exists(old_meta)
+            if check_only:
+                # the change was validated before (builds, suite passes, demonstration fails with / passes without): only the
+                # property's check is run again against the changed tree
+                prev = json.load(open(old_meta))
+                for k_ in ("builds", "suite_passes", "demo_with_change", "demo_without_change", "demo_tail", "seeding_round"):
+                    if k_ in prev:
+                        meta[k_] = prev[k_]
+                meta["validated_at"] = prev.get("validated_at", prev.get("at"))
+            else:
+                rc, out = sh("go build ./... && go build -tags verif ./...", cwd=WT)
+                meta["builds"] = rc == 0
+                rc, out = sh("go test -vet=off -count=1 ./...", cwd=WT)
+                meta["suite_passes"] = rc == 0
+                if rc != 0:
+                    meta["suite_output"] = out[-800:]
+            if os.path.exists(demo) and not check_only:
                 rc1, o1 = sh(["bash", demo, WT], timeout=600)
                 rc0, o0 = sh(["bash", demo, "/repo"], timeout=600)
                 meta["demo_with_change"] = rc1
